@@ -102,6 +102,24 @@ def calendar_violations(spec, obs, sc_idx=0):
                     nontrivial = True
             if r.tz:
                 classes.add("zone")
+                from ..calendar_oracle import local_of
+
+                offs = {(local_of(observe.slot_time(obs, sl), r.tz) - observe.slot_time(obs, sl)) for sl in (booked[0], booked[-1])}
+                if len(offs) > 1:
+                    classes.add("dst_change_inside_booked_span")
+            hrs = r.hours if r.hours is not None else (spec.shift_map()[r.shift].hours if r.shift else None)
+            if hrs is not None and any(e <= s_ for ivs in hrs.table.values() for s_, e in ivs):
+                from ..calendar_oracle import local_of
+
+                for sl in booked:
+                    lt = local_of(observe.slot_time(obs, sl), r.tz)
+                    prev = hrs.table.get((lt.weekday() - 1) % 7, [])
+                    m = lt.hour * 60 + lt.minute
+                    if any(e <= s_ and m < e for s_, e in prev) and not any(s_ <= m < e for s_, e in hrs.table.get(lt.weekday(), []) if e > s_):
+                        classes.add("booked_after_midnight_part")
+                        if not hrs.table.get(lt.weekday()):
+                            classes.add("booked_after_midnight_on_unlisted_day")
+                        break
             if r.hours is not None or r.shift:
                 classes.add("own_calendar")
             if r.leaves:
